@@ -50,8 +50,8 @@ let compOpp = function
 
 module Coq__1 = struct
  (** val add : nat -> nat -> nat **)
- let rec add n0 m =
-   match n0 with
+ let rec add n1 m =
+   match n1 with
    | O -> m
    | S p -> S (add p m)
 end
@@ -59,35 +59,40 @@ include Coq__1
 
 (** val mul : nat -> nat -> nat **)
 
-let rec mul n0 m =
-  match n0 with
+let rec mul n1 m =
+  match n1 with
   | O -> O
   | S p -> add m (mul p m)
 
 (** val sub : nat -> nat -> nat **)
 
-let rec sub n0 m =
-  match n0 with
-  | O -> n0
+let rec sub n1 m =
+  match n1 with
+  | O -> n1
   | S k -> (match m with
-            | O -> n0
+            | O -> n1
             | S l -> sub k l)
 
 (** val max : nat -> nat -> nat **)
 
-let rec max n0 m =
-  match n0 with
+let rec max n1 m =
+  match n1 with
   | O -> m
   | S n' -> (match m with
-             | O -> n0
+             | O -> n1
              | S m' -> S (max n' m'))
+
+(** val eqb : bool -> bool -> bool **)
+
+let eqb b1 b2 =
+  if b1 then b2 else if b2 then false else true
 
 module Nat =
  struct
   (** val eqb : nat -> nat -> bool **)
 
-  let rec eqb n0 m =
-    match n0 with
+  let rec eqb n1 m =
+    match n1 with
     | O -> (match m with
             | O -> true
             | S _ -> false)
@@ -97,8 +102,8 @@ module Nat =
 
   (** val leb : nat -> nat -> bool **)
 
-  let rec leb n0 m =
-    match n0 with
+  let rec leb n1 m =
+    match n1 with
     | O -> true
     | S n' -> (match m with
                | O -> false
@@ -106,8 +111,8 @@ module Nat =
 
   (** val ltb : nat -> nat -> bool **)
 
-  let ltb n0 m =
-    leb (S n0) m
+  let ltb n1 m =
+    leb (S n1) m
  end
 
 (** val hd : 'a1 -> 'a1 list -> 'a1 **)
@@ -124,8 +129,8 @@ let tl = function
 
 (** val nth : nat -> 'a1 list -> 'a1 -> 'a1 **)
 
-let rec nth n0 l default =
-  match n0 with
+let rec nth n1 l default =
+  match n1 with
   | O -> (match l with
           | [] -> default
           | x :: _ -> x)
@@ -139,15 +144,21 @@ let rec nth_error l = function
 | O -> (match l with
         | [] -> None
         | x :: _ -> Some x)
-| S n1 -> (match l with
+| S n2 -> (match l with
            | [] -> None
-           | _ :: l0 -> nth_error l0 n1)
+           | _ :: l0 -> nth_error l0 n2)
 
 (** val rev : 'a1 list -> 'a1 list **)
 
 let rec rev = function
 | [] -> []
 | x :: l' -> app (rev l') (x :: [])
+
+(** val concat : 'a1 list list -> 'a1 list **)
+
+let rec concat = function
+| [] -> []
+| x :: l0 -> app x (concat l0)
 
 (** val map : ('a1 -> 'a2) -> 'a1 list -> 'a2 list **)
 
@@ -204,21 +215,21 @@ let rec combine l l' =
 
 (** val firstn : nat -> 'a1 list -> 'a1 list **)
 
-let rec firstn n0 l =
-  match n0 with
+let rec firstn n1 l =
+  match n1 with
   | O -> []
-  | S n1 -> (match l with
+  | S n2 -> (match l with
              | [] -> []
-             | a :: l0 -> a :: (firstn n1 l0))
+             | a :: l0 -> a :: (firstn n2 l0))
 
 (** val skipn : nat -> 'a1 list -> 'a1 list **)
 
-let rec skipn n0 l =
-  match n0 with
+let rec skipn n1 l =
+  match n1 with
   | O -> l
-  | S n1 -> (match l with
+  | S n2 -> (match l with
              | [] -> []
-             | _ :: l0 -> skipn n1 l0)
+             | _ :: l0 -> skipn n2 l0)
 
 (** val seq : nat -> nat -> nat list **)
 
@@ -235,6 +246,10 @@ type positive =
 | XI of positive
 | XO of positive
 | XH
+
+type n =
+| N0
+| Npos of positive
 
 type z =
 | Z0
@@ -361,6 +376,45 @@ module Pos =
   | S x -> succ (of_succ_nat x)
  end
 
+module N =
+ struct
+  (** val add : n -> n -> n **)
+
+  let add n1 m =
+    match n1 with
+    | N0 -> m
+    | Npos p -> (match m with
+                 | N0 -> n1
+                 | Npos q -> Npos (Pos.add p q))
+
+  (** val mul : n -> n -> n **)
+
+  let mul n1 m =
+    match n1 with
+    | N0 -> N0
+    | Npos p -> (match m with
+                 | N0 -> N0
+                 | Npos q -> Npos (Pos.mul p q))
+
+  (** val compare : n -> n -> comparison **)
+
+  let compare n1 m =
+    match n1 with
+    | N0 -> (match m with
+             | N0 -> Eq
+             | Npos _ -> Lt)
+    | Npos n' -> (match m with
+                  | N0 -> Gt
+                  | Npos m' -> Pos.compare n' m')
+
+  (** val ltb : n -> n -> bool **)
+
+  let ltb x y =
+    match compare x y with
+    | Lt -> true
+    | _ -> false
+ end
+
 module Z =
  struct
   (** val double : z -> z **)
@@ -429,8 +483,8 @@ module Z =
 
   (** val sub : z -> z -> z **)
 
-  let sub m n0 =
-    add m (opp n0)
+  let sub m n1 =
+    add m (opp n1)
 
   (** val mul : z -> z -> z **)
 
@@ -509,7 +563,7 @@ module Z =
 
   let of_nat = function
   | O -> Z0
-  | S n1 -> Zpos (Pos.of_succ_nat n1)
+  | S n2 -> Zpos (Pos.of_succ_nat n2)
 
   (** val pos_div_eucl : positive -> z -> z * z **)
 
@@ -558,6 +612,42 @@ module Z =
   let modulo a b =
     let (_, r) = div_eucl a b in r
  end
+
+type ascii =
+| Ascii of bool * bool * bool * bool * bool * bool * bool * bool
+
+(** val eqb0 : ascii -> ascii -> bool **)
+
+let eqb0 a b =
+  let Ascii (a0, a1, a2, a3, a4, a5, a6, a7) = a in
+  let Ascii (b0, b1, b2, b3, b4, b5, b6, b7) = b in
+  if if if if if if if eqb a0 b0 then eqb a1 b1 else false
+                 then eqb a2 b2
+                 else false
+              then eqb a3 b3
+              else false
+           then eqb a4 b4
+           else false
+        then eqb a5 b5
+        else false
+     then eqb a6 b6
+     else false
+  then eqb a7 b7
+  else false
+
+(** val n_of_digits : bool list -> n **)
+
+let rec n_of_digits = function
+| [] -> N0
+| b :: l' ->
+  N.add (if b then Npos XH else N0) (N.mul (Npos (XO XH)) (n_of_digits l'))
+
+(** val n_of_ascii : ascii -> n **)
+
+let n_of_ascii = function
+| Ascii (a0, a1, a2, a3, a4, a5, a6, a7) ->
+  n_of_digits
+    (a0 :: (a1 :: (a2 :: (a3 :: (a4 :: (a5 :: (a6 :: (a7 :: []))))))))
 
 type rule = { lhs : nat; rhs : nat list }
 
@@ -1046,36 +1136,36 @@ type ntrans = nat * nat
 
 (** val mem0 : ('a1 -> 'a1 -> bool) -> 'a1 -> 'a1 list -> bool **)
 
-let rec mem0 eqb0 x = function
+let rec mem0 eqb1 x = function
 | [] -> false
-| y :: l' -> (||) (eqb0 x y) (mem0 eqb0 x l')
+| y :: l' -> (||) (eqb1 x y) (mem0 eqb1 x l')
 
 (** val add_new0 :
     ('a1 -> 'a1 -> bool) -> 'a1 list -> 'a1 list -> 'a1 list **)
 
-let rec add_new0 eqb0 news i =
+let rec add_new0 eqb1 news i =
   match news with
   | [] -> i
   | x :: n' ->
-    if mem0 eqb0 x i
-    then add_new0 eqb0 n' i
-    else add_new0 eqb0 n' (app i (x :: []))
+    if mem0 eqb1 x i
+    then add_new0 eqb1 n' i
+    else add_new0 eqb1 n' (app i (x :: []))
 
 (** val round :
     ('a1 -> 'a1 -> bool) -> ('a1 -> 'a1 list) -> 'a1 list -> 'a1 list **)
 
-let round eqb0 succ0 i =
-  add_new0 eqb0 (flat_map succ0 i) i
+let round eqb1 succ0 i =
+  add_new0 eqb1 (flat_map succ0 i) i
 
 (** val saturate :
     ('a1 -> 'a1 -> bool) -> ('a1 -> 'a1 list) -> nat -> 'a1 list -> 'a1 list **)
 
-let rec saturate eqb0 succ0 fuel i =
+let rec saturate eqb1 succ0 fuel i =
   match fuel with
   | O -> i
   | S f ->
-    let i' = round eqb0 succ0 i in
-    if Nat.eqb (length i') (length i) then i else saturate eqb0 succ0 f i'
+    let i' = round eqb1 succ0 i in
+    if Nat.eqb (length i') (length i) then i else saturate eqb1 succ0 f i'
 
 (** val ntrans_eqb : ntrans -> ntrans -> bool **)
 
@@ -1259,9 +1349,9 @@ let disp cols cell order =
 let slots cols cell order =
   snd (st0 cols cell order)
 
-(** val n : nat -> (nat -> nat -> z) -> nat list -> nat **)
+(** val n0 : nat -> (nat -> nat -> z) -> nat list -> nat **)
 
-let n cols cell order =
+let n0 cols cell order =
   S (list_max (occ cols cell order))
 
 (** val tarr : nat -> (nat -> nat -> z) -> nat list -> z list **)
@@ -1270,7 +1360,7 @@ let tarr cols cell order =
   map (fun p ->
     match assoc1 p (slots cols cell order) with
     | Some p0 -> let (i, j) = p0 in cell i j
-    | None -> Z0) (seq O (n cols cell order))
+    | None -> Z0) (seq O (n0 cols cell order))
 
 (** val carr : nat -> (nat -> nat -> z) -> nat list -> z list **)
 
@@ -1278,7 +1368,7 @@ let carr cols cell order =
   map (fun p ->
     match assoc1 p (slots cols cell order) with
     | Some p0 -> let (i, _) = p0 in Z.of_nat i
-    | None -> Zneg XH) (seq O (n cols cell order))
+    | None -> Zneg XH) (seq O (n0 cols cell order))
 
 (** val trim : nat -> (nat -> nat -> z) -> nat list -> nat **)
 
@@ -1428,9 +1518,9 @@ let la_lookup tabl q r =
 
 (** val err_code : nat -> z **)
 
-let err_code n0 =
+let err_code n1 =
   Z.of_nat
-    (add n0 (S (S (S (S (S (S (S (S (S (S (S (S (S (S (S (S (S (S (S (S (S (S
+    (add n1 (S (S (S (S (S (S (S (S (S (S (S (S (S (S (S (S (S (S (S (S (S (S
       (S (S (S (S (S (S (S (S (S (S (S (S (S (S (S (S (S (S (S (S (S (S (S (S
       (S (S (S (S (S (S (S (S (S (S (S (S (S (S (S (S (S (S (S (S (S (S (S (S
       (S (S (S (S (S (S (S (S (S (S (S (S (S (S (S (S (S (S (S (S (S (S (S (S
@@ -1439,9 +1529,9 @@ let err_code n0 =
 
 (** val acc_code : nat -> z **)
 
-let acc_code n0 =
+let acc_code n1 =
   Z.of_nat
-    (add n0 (S (S (S (S (S (S (S (S (S (S (S (S (S (S (S (S (S (S (S (S (S (S
+    (add n1 (S (S (S (S (S (S (S (S (S (S (S (S (S (S (S (S (S (S (S (S (S (S
       (S (S (S (S (S (S (S (S (S (S (S (S (S (S (S (S (S (S (S (S (S (S (S (S
       (S (S (S (S (S (S (S (S (S (S (S (S (S (S (S (S (S (S (S (S (S (S (S (S
       (S (S (S (S (S (S (S (S (S (S (S (S (S (S (S (S (S (S (S (S (S (S (S (S
@@ -1454,18 +1544,18 @@ let acc_code n0 =
 
 (** val encode : nat -> action -> z **)
 
-let encode n0 = function
+let encode n1 = function
 | Shift q -> Z.of_nat q
 | Reduce r -> Z.opp (Z.of_nat r)
-| Accept -> acc_code n0
-| Error -> err_code n0
+| Accept -> acc_code n1
+| Error -> err_code n1
 
 (** val decode_z : nat -> z -> action **)
 
-let decode_z n0 z0 =
-  if Z.eqb z0 (err_code n0)
+let decode_z n1 z0 =
+  if Z.eqb z0 (err_code n1)
   then Error
-  else if Z.eqb z0 (acc_code n0)
+  else if Z.eqb z0 (acc_code n1)
        then Accept
        else if Z.ltb Z0 z0
             then Shift (Z.to_nat z0)
@@ -1684,13 +1774,13 @@ let generate_tables gi =
   | [] ->
     (match build gi.gi_rules with
      | Some aut ->
-       let n0 = length aut in
+       let n1 = length aut in
        let tabl = la_table gi.gi_rules aut in
-       let dense = dense_of n0 gi.gi_nsyms (action_fun gi aut tabl) in
-       let p = compress dense gi.gi_nterm gi.gi_nsyms n0 in
+       let dense = dense_of n1 gi.gi_nsyms (action_fun gi aut tabl) in
+       let p = compress dense gi.gi_nterm gi.gi_nsyms n1 in
        Inr { t_aut = aut; t_la = tabl; t_dense = dense; t_warn =
        (warnings gi aut tabl); t_conf = (conflict_cells gi aut tabl);
-       t_packed = p; t_need_packed = (need_packed p n0 gi.gi_nsyms) }
+       t_packed = p; t_need_packed = (need_packed p n1 gi.gi_nsyms) }
      | None -> Inl ETooManyStates)
   | _ :: l -> Inl (EUnproductive l)
 
@@ -1832,10 +1922,10 @@ let is_packed = function
 (** val table_of : variant -> tables -> table **)
 
 let table_of v t =
-  let n0 = length t.t_aut in
+  let n1 = length t.t_aut in
   if (&&) (is_packed v) t.t_need_packed
-  then packed_action n0 t.t_packed
-  else dense_action n0 t.t_dense
+  then packed_action n1 t.t_packed
+  else dense_action n1 t.t_dense
 
 (** val cfinal :
     table -> grammar -> semact -> nat -> pst -> tok list -> pst **)
@@ -1980,10 +2070,10 @@ let rec replay g act stack inp shifted = function
   let (r, k) = p in
   if Nat.ltb k shifted
   then None
-  else let n0 = sub k shifted in
-       if Nat.ltb (length inp) n0
+  else let n1 = sub k shifted in
+       if Nat.ltb (length inp) n1
        then None
-       else let stack1 = app (rev (firstn n0 inp)) stack in
+       else let stack1 = app (rev (firstn n1 inp)) stack in
             (match nth_error g r with
              | Some r0 ->
                let m = length r0.rhs in
@@ -1992,7 +2082,7 @@ let rec replay g act stack inp shifted = function
                else if sym_eqb_list (map fst (firstn m stack1)) (rev r0.rhs)
                     then replay g act ((r0.lhs,
                            (act r (rev (map snd (firstn m stack1))))) :: 
-                           (skipn m stack1)) (skipn n0 inp) k rest
+                           (skipn m stack1)) (skipn n1 inp) k rest
                     else None
              | None -> None)
 
@@ -2108,3 +2198,528 @@ let predict failing =
     | None -> false
   in
   fst (run_gen Nat.eqb fails (fun _ -> Some Old) O Empty New) O
+
+type name = ascii list
+
+(** val name_eqb : name -> name -> bool **)
+
+let rec name_eqb a b =
+  match a with
+  | [] -> (match b with
+           | [] -> true
+           | _ :: _ -> false)
+  | x :: a' ->
+    (match b with
+     | [] -> false
+     | y :: b' -> (&&) (eqb0 x y) (name_eqb a' b'))
+
+(** val name_leb : name -> name -> bool **)
+
+let rec name_leb a b =
+  match a with
+  | [] -> true
+  | x :: a' ->
+    (match b with
+     | [] -> false
+     | y :: b' ->
+       if N.ltb (n_of_ascii x) (n_of_ascii y)
+       then true
+       else if N.ltb (n_of_ascii y) (n_of_ascii x)
+            then false
+            else name_leb a' b')
+
+(** val ins_name : name -> name list -> name list **)
+
+let rec ins_name x l = match l with
+| [] -> x :: []
+| y :: l' -> if name_leb x y then x :: l else y :: (ins_name x l')
+
+(** val sort_names : name list -> name list **)
+
+let sort_names l =
+  fold_right ins_name [] l
+
+type idtyp =
+| TermId
+| NontermId
+
+type ident = { i_name : name; i_typ : idtyp; i_value : z; i_tag : name;
+               i_alias : name }
+
+type assoc_kw =
+| ALeft
+| ARight
+| ANon
+
+type precdef = { pd_assoc : assoc_kw; pd_name : name }
+
+type declnode = { d_code : ascii list; d_tokens : ident list list;
+                  d_precs : precdef list list; d_types : (name * name) list;
+                  d_union : ascii list; d_start : name }
+
+type relem =
+| RSym of name
+| RAct of ascii list
+
+type ruledef = { r_line : nat; r_lhs : name; r_rhs : relem list; r_prec : name }
+
+type ast = { a_decl : declnode; a_rules : ruledef list; a_rest : ascii list }
+
+type idtab = ident list
+
+(** val tab_find : idtab -> name -> ident option **)
+
+let rec tab_find t n1 =
+  match t with
+  | [] -> None
+  | i :: t'0 -> if name_eqb i.i_name n1 then Some i else tab_find t'0 n1
+
+(** val tab_update : idtab -> name -> (ident -> ident) -> idtab **)
+
+let rec tab_update t n1 f =
+  match t with
+  | [] -> []
+  | i :: t'0 ->
+    if name_eqb i.i_name n1 then (f i) :: t'0 else i :: (tab_update t'0 n1 f)
+
+(** val tab_has : idtab -> name -> bool **)
+
+let tab_has t n1 =
+  match tab_find t n1 with
+  | Some _ -> true
+  | None -> false
+
+(** val tab_names : idtab -> name list **)
+
+let tab_names t =
+  map (fun i -> i.i_name) t
+
+(** val is_nil : 'a1 list -> bool **)
+
+let is_nil = function
+| [] -> true
+| _ :: _ -> false
+
+type dstate = { ds_tab : idtab; ds_max : z; ds_precidx : nat;
+                ds_prelist : ((nat * assoc_kw) * name) list }
+
+type front_error =
+| FPrecUnknown of name
+| FUndefined of name
+| FNoRule of name
+| FNoStart
+| FUnproductive of nat list
+| FTooMany
+
+(** val merge_token : ident -> ident -> ident **)
+
+let merge_token old id =
+  { i_name = old.i_name; i_typ = old.i_typ; i_value =
+    (if Z.eqb id.i_value Z0 then old.i_value else id.i_value); i_tag =
+    (if is_nil id.i_tag then old.i_tag else id.i_tag); i_alias =
+    (if is_nil id.i_alias then old.i_alias else id.i_alias) }
+
+(** val add_token : dstate -> ident -> dstate **)
+
+let add_token s id =
+  let mx = if Z.ltb s.ds_max id.i_value then id.i_value else s.ds_max in
+  let tab =
+    if tab_has s.ds_tab id.i_name
+    then tab_update s.ds_tab id.i_name (fun old -> merge_token old id)
+    else app s.ds_tab (id :: [])
+  in
+  { ds_tab = tab; ds_max = mx; ds_precidx = s.ds_precidx; ds_prelist =
+  s.ds_prelist }
+
+(** val add_type : dstate -> (name * name) -> dstate **)
+
+let add_type s = function
+| (tag, n1) ->
+  let tab =
+    if tab_has s.ds_tab n1
+    then tab_update s.ds_tab n1 (fun old -> { i_name = old.i_name; i_typ =
+           old.i_typ; i_value = old.i_value; i_tag = tag; i_alias =
+           old.i_alias })
+    else app s.ds_tab ({ i_name = n1; i_typ = NontermId; i_value = Z0;
+           i_tag = tag; i_alias = [] } :: [])
+  in
+  { ds_tab = tab; ds_max = s.ds_max; ds_precidx = s.ds_precidx; ds_prelist =
+  s.ds_prelist }
+
+(** val add_prec_line :
+    idtab -> nat -> precdef list -> ((nat * assoc_kw) * name) list ->
+    (front_error, ((nat * assoc_kw) * name) list) sum **)
+
+let rec add_prec_line tab idx line acc =
+  match line with
+  | [] -> Inr acc
+  | p :: line' ->
+    if tab_has tab p.pd_name
+    then add_prec_line tab idx line'
+           (app acc (((idx, p.pd_assoc), p.pd_name) :: []))
+    else Inl (FPrecUnknown p.pd_name)
+
+(** val add_precs :
+    dstate -> precdef list list -> (front_error, dstate) sum **)
+
+let rec add_precs s = function
+| [] -> Inr s
+| line :: lines' ->
+  let idx = S s.ds_precidx in
+  (match add_prec_line s.ds_tab idx line s.ds_prelist with
+   | Inl e -> Inl e
+   | Inr pl ->
+     add_precs { ds_tab = s.ds_tab; ds_max = s.ds_max; ds_precidx = idx;
+       ds_prelist = pl } lines')
+
+(** val number_auto : idtab -> z -> name list -> idtab * z **)
+
+let rec number_auto tab mx = function
+| [] -> (tab, mx)
+| n1 :: names' ->
+  (match tab_find tab n1 with
+   | Some i ->
+     if Z.eqb i.i_value Z0
+     then number_auto
+            (tab_update tab n1 (fun old -> { i_name = old.i_name; i_typ =
+              old.i_typ; i_value = (Z.add mx (Zpos XH)); i_tag = old.i_tag;
+              i_alias = old.i_alias })) (Z.add mx (Zpos XH)) names'
+     else number_auto tab mx names'
+   | None -> number_auto tab mx names')
+
+(** val visit_decl : declnode -> (front_error, dstate) sum **)
+
+let visit_decl d0 =
+  let s0 = { ds_tab = []; ds_max = (Zpos (XO XH)); ds_precidx = O;
+    ds_prelist = [] }
+  in
+  let s1 = fold_left add_token (concat d0.d_tokens) s0 in
+  let s2 = fold_left add_type d0.d_types s1 in
+  (match add_precs s2 d0.d_precs with
+   | Inl e -> Inl e
+   | Inr s3 ->
+     let tab =
+       if (&&) (negb (is_nil d0.d_start))
+            (negb (tab_has s3.ds_tab d0.d_start))
+       then app s3.ds_tab ({ i_name = d0.d_start; i_typ = NontermId;
+              i_value = Z0; i_tag = []; i_alias = [] } :: [])
+       else s3.ds_tab
+     in
+     let (tab', mx) = number_auto tab s3.ds_max (sort_names (tab_names tab))
+     in
+     Inr { ds_tab = tab'; ds_max = mx; ds_precidx = s3.ds_precidx;
+     ds_prelist = s3.ds_prelist })
+
+(** val pre_find :
+    ((nat * assoc_kw) * name) list -> name -> ((nat * assoc_kw) * name)
+    option -> ((nat * assoc_kw) * name) option **)
+
+let rec pre_find pl n1 acc =
+  match pl with
+  | [] -> acc
+  | e :: pl' ->
+    let (_, m) = e in pre_find pl' n1 (if name_eqb m n1 then Some e else acc)
+
+(** val pre_map :
+    ((nat * assoc_kw) * name) list -> name -> ((nat * assoc_kw) * name) option **)
+
+let pre_map pl n1 =
+  pre_find pl n1 None
+
+type vrule = { v_line : nat; v_lhs : name; v_rhs : name list;
+               v_prec : name option; v_action : ascii list }
+
+(** val add_lhs : idtab -> z -> ruledef list -> idtab * z **)
+
+let rec add_lhs tab mx = function
+| [] -> (tab, mx)
+| r :: rs' ->
+  if tab_has tab r.r_lhs
+  then add_lhs tab mx rs'
+  else add_lhs
+         (app tab ({ i_name = r.r_lhs; i_typ = NontermId; i_value =
+           (Z.add mx (Zpos XH)); i_tag = []; i_alias = [] } :: []))
+         (Z.add mx (Zpos XH)) rs'
+
+(** val scan_rhs :
+    idtab -> ((nat * assoc_kw) * name) list -> relem list -> name list ->
+    name option -> ascii list -> (front_error, (name list * name
+    option) * ascii list) sum **)
+
+let rec scan_rhs tab pl es syms prec act =
+  match es with
+  | [] -> Inr ((syms, prec), act)
+  | r :: es' ->
+    (match r with
+     | RSym n1 ->
+       if tab_has tab n1
+       then scan_rhs tab pl es' (app syms (n1 :: []))
+              (match pre_map pl n1 with
+               | Some _ -> Some n1
+               | None -> prec) act
+       else Inl (FUndefined n1)
+     | RAct c -> scan_rhs tab pl es' syms prec c)
+
+(** val visit_rule :
+    idtab -> ((nat * assoc_kw) * name) list -> ruledef -> (front_error,
+    vrule) sum **)
+
+let visit_rule tab pl r =
+  match scan_rhs tab pl r.r_rhs [] None [] with
+  | Inl e -> Inl e
+  | Inr p ->
+    let (p0, act) = p in
+    let (syms, prec) = p0 in
+    let prec' =
+      if is_nil r.r_prec
+      then prec
+      else (match pre_map pl r.r_prec with
+            | Some _ -> Some r.r_prec
+            | None -> None)
+    in
+    Inr { v_line = r.r_line; v_lhs = r.r_lhs; v_rhs = syms; v_prec = prec';
+    v_action = act }
+
+(** val visit_rules_list :
+    idtab -> ((nat * assoc_kw) * name) list -> ruledef list -> (front_error,
+    vrule list) sum **)
+
+let rec visit_rules_list tab pl = function
+| [] -> Inr []
+| r :: rs' ->
+  (match visit_rule tab pl r with
+   | Inl e -> Inl e
+   | Inr v ->
+     (match visit_rules_list tab pl rs' with
+      | Inl e -> Inl e
+      | Inr vs -> Inr (v :: vs)))
+
+type visited = { vs_tab : idtab; vs_max : z;
+                 vs_prelist : ((nat * assoc_kw) * name) list;
+                 vs_rules : vrule list; vs_start : name;
+                 vs_code : ascii list; vs_union : ascii list;
+                 vs_rest : ascii list }
+
+(** val visit : ast -> (front_error, visited) sum **)
+
+let visit a =
+  match visit_decl a.a_decl with
+  | Inl e -> Inl e
+  | Inr s ->
+    let (tab, mx) = add_lhs s.ds_tab s.ds_max a.a_rules in
+    (match visit_rules_list tab s.ds_prelist a.a_rules with
+     | Inl e -> Inl e
+     | Inr vs ->
+       Inr { vs_tab = tab; vs_max = mx; vs_prelist = s.ds_prelist; vs_rules =
+         vs; vs_start = a.a_decl.d_start; vs_code = a.a_decl.d_code;
+         vs_union = a.a_decl.d_union; vs_rest = a.a_rest })
+
+type gsym = { s_name : name; s_value : z; s_tag : name; s_declnt : bool;
+              s_prec : z; s_assoc : assoc0 }
+
+(** val conv_assoc : assoc_kw -> assoc0 **)
+
+let conv_assoc = function
+| ALeft -> LEFT
+| ARight -> RIGHT
+| ANon -> NONE
+
+(** val start_name : name **)
+
+let start_name =
+  (Ascii (true, true, false, false, true, true, true, false)) :: ((Ascii
+    (false, false, true, false, true, true, true, false)) :: ((Ascii (true,
+    false, false, false, false, true, true, false)) :: ((Ascii (false, true,
+    false, false, true, true, true, false)) :: ((Ascii (false, false, true,
+    false, true, true, true, false)) :: []))))
+
+(** val dollar_name : name **)
+
+let dollar_name =
+  (Ascii (false, false, true, false, false, true, false, false)) :: []
+
+(** val ordered_idents : idtab -> ident list **)
+
+let ordered_idents tab =
+  let sorted =
+    flat_map (fun n1 ->
+      match tab_find tab n1 with
+      | Some i -> i :: []
+      | None -> []) (sort_names (tab_names tab))
+  in
+  let keep = filter (fun i -> negb (Z.eqb i.i_value (Zneg XH))) in
+  app
+    (keep
+      (filter (fun i ->
+        match i.i_typ with
+        | TermId -> true
+        | NontermId -> false) sorted))
+    (keep
+      (filter (fun i ->
+        match i.i_typ with
+        | TermId -> false
+        | NontermId -> true) sorted))
+
+(** val sym_of_ident : ((nat * assoc_kw) * name) list -> ident -> gsym **)
+
+let sym_of_ident pl i =
+  match i.i_typ with
+  | TermId ->
+    (match pre_map pl i.i_name with
+     | Some p0 ->
+       let (p1, _) = p0 in
+       let (p, a) = p1 in
+       { s_name = i.i_name; s_value = i.i_value; s_tag = i.i_tag; s_declnt =
+       false; s_prec = (Z.of_nat p); s_assoc = (conv_assoc a) }
+     | None ->
+       { s_name = i.i_name; s_value = i.i_value; s_tag = i.i_tag; s_declnt =
+         false; s_prec = (Zneg XH); s_assoc = NONE })
+  | NontermId ->
+    { s_name = i.i_name; s_value = i.i_value; s_tag = i.i_tag; s_declnt =
+      true; s_prec = (Zneg XH); s_assoc = NONE }
+
+(** val symbols_of : visited -> gsym list **)
+
+let symbols_of v =
+  { s_name = start_name; s_value = Z0; s_tag = []; s_declnt = true; s_prec =
+    (Zneg XH); s_assoc = NONE } :: ({ s_name = dollar_name; s_value = (Zneg
+    XH); s_tag = []; s_declnt = false; s_prec = (Zneg XH); s_assoc =
+    NONE } :: (map (sym_of_ident v.vs_prelist) (ordered_idents v.vs_tab)))
+
+(** val sym_index_from :
+    gsym list -> name -> nat -> nat option -> nat option **)
+
+let rec sym_index_from syms n1 k acc =
+  match syms with
+  | [] -> acc
+  | s :: syms' ->
+    sym_index_from syms' n1 (S k)
+      (if name_eqb s.s_name n1 then Some k else acc)
+
+(** val sym_index : gsym list -> name -> nat option **)
+
+let sym_index syms n1 =
+  sym_index_from syms n1 O None
+
+(** val map_opt : ('a1 -> 'a2 option) -> 'a1 list -> 'a2 list option **)
+
+let rec map_opt f = function
+| [] -> Some []
+| x :: l' ->
+  (match f x with
+   | Some y ->
+     (match map_opt f l' with
+      | Some ys -> Some (y :: ys)
+      | None -> None)
+   | None -> None)
+
+type built = { b_syms : gsym list; b_gi : ginfo;
+               b_rule_prec : nat option list; b_visited : visited }
+
+(** val build_rule : gsym list -> vrule -> (rule * nat option) option **)
+
+let build_rule syms r =
+  match sym_index syms r.v_lhs with
+  | Some l ->
+    (match map_opt (sym_index syms) r.v_rhs with
+     | Some rs ->
+       Some ({ lhs = l; rhs = rs },
+         (match r.v_prec with
+          | Some n1 -> sym_index syms n1
+          | None -> None))
+     | None -> None)
+  | None -> None
+
+(** val is_lhs : rule list -> nat -> bool **)
+
+let is_lhs rules k =
+  existsb (fun r -> Nat.eqb r.lhs k) rules
+
+(** val build_grammar : visited -> (front_error, built) sum **)
+
+let build_grammar v =
+  let syms = symbols_of v in
+  (match sym_index (skipn (S (S O)) syms) v.vs_start with
+   | Some s0 ->
+     let first = S (S s0) in
+     (match map_opt (build_rule syms) v.vs_rules with
+      | Some rs ->
+        let rules = { lhs = O; rhs = (first :: []) } :: (map fst rs) in
+        let n1 = length syms in
+        let isnt = fun k ->
+          (||) (nth k (map (fun g -> g.s_declnt) syms) false) (is_lhs rules k)
+        in
+        (match filter (fun k ->
+                 (&&) (nth k (map (fun g -> g.s_declnt) syms) false)
+                   (negb (is_lhs rules k))) (seq O n1) with
+         | [] ->
+           let nterm = length (filter (fun k -> negb (isnt k)) (seq O n1)) in
+           let sprec = map (fun s -> (s.s_prec, s.s_assoc)) syms in
+           let rprec =
+             no_prec :: (map (fun x ->
+                          match snd x with
+                          | Some k -> nth k sprec no_prec
+                          | None -> no_prec) rs)
+           in
+           let gi = { gi_rules = rules; gi_nsyms = n1; gi_nterm = nterm;
+             gi_sprec = sprec; gi_rprec = rprec }
+           in
+           (match unproductive gi with
+            | [] ->
+              Inr { b_syms = syms; b_gi = gi; b_rule_prec =
+                (None :: (map snd rs)); b_visited = v }
+            | _ :: l -> Inl (FUnproductive l))
+         | k :: _ ->
+           Inl (FNoRule
+             (nth k syms { s_name = []; s_value = Z0; s_tag = []; s_declnt =
+               false; s_prec = Z0; s_assoc = NONE }).s_name))
+      | None -> Inl FNoStart)
+   | None -> Inl FNoStart)
+
+(** val front : ast -> (front_error, built) sum **)
+
+let front a =
+  match visit a with
+  | Inl e -> Inl e
+  | Inr v -> build_grammar v
+
+(** val nodup_z : z list -> bool **)
+
+let rec nodup_z = function
+| [] -> true
+| x :: l' -> (&&) (negb (existsb (Z.eqb x) l')) (nodup_z l')
+
+(** val last_nonzero : (name * z) list -> name -> z option **)
+
+let last_nonzero decls n1 =
+  fold_left (fun acc p ->
+    if (&&) (name_eqb (fst p) n1) (negb (Z.eqb (snd p) Z0))
+    then Some (snd p)
+    else acc) decls None
+
+(** val dedup_names : name list -> name list **)
+
+let rec dedup_names = function
+| [] -> []
+| x :: l' ->
+  if existsb (name_eqb x) l' then dedup_names l' else x :: (dedup_names l')
+
+(** val fixed_codes : (name * z) list -> z list **)
+
+let fixed_codes decls =
+  flat_map (fun n1 ->
+    match last_nonzero decls n1 with
+    | Some v -> v :: []
+    | None -> []) (dedup_names (map fst decls))
+
+(** val valid_codes : (name * z) list -> (name * z) list -> bool **)
+
+let valid_codes decls final =
+  (&&)
+    (forallb (fun p ->
+      match last_nonzero decls (fst p) with
+      | Some v -> Z.eqb (snd p) v
+      | None ->
+        (&&) (negb (existsb (Z.eqb (snd p)) (fixed_codes decls)))
+          (negb (Z.eqb (snd p) (Zneg XH)))) final)
+    (if nodup_z (fixed_codes decls) then nodup_z (map snd final) else true)
